@@ -81,8 +81,9 @@ func init() {
 			o.Count("random-occupancy")
 		}
 		// (2') the same questions asked of the zero value + Xor as the very first thing a fresh process does
+		rawBase := 2 * r.Int63n(1<<40)
 		for i := 0; i < 2; i++ {
-			line := fmt.Sprintf("published rawline %d %d", r.Int63n(1<<40), n*4)
+			line := fmt.Sprintf("published rawline %d %d", rawBase+int64(i), n*4) // even seed: queen asked first; odd: rook, bishop, queen
 			o.do(line)
 			o.Count("fresh-process-zero-value-occupancies")
 			o.Nontrivial(line)
@@ -220,6 +221,11 @@ func init() {
 				return fmt.Sprintf("MISMATCH zero-value+Xor occupancy %x reads back as %x", occ, uint64(rb.Mask()))
 			}
 			wr, wb := ray(occ, sq, rookDirs), ray(occ, sq, bishopDirs)
+			if seed%2 == 0 { // the queen first: in these runs it is the very first slider lookup of the process
+				if got := uint64(board.QueenAttackboard(rb, board.Square(sq))); got != wr|wb {
+					return fmt.Sprintf("MISMATCH first queries of a process: queen on %d, occupancy %x (zero value + Xor), asked before rook and bishop: %x, ray walk %x", sq, occ, got, wr|wb)
+				}
+			}
 			if got := uint64(board.RookAttackboard(rb, board.Square(sq))); got != wr {
 				return fmt.Sprintf("MISMATCH first queries of a process: rook on %d, occupancy %x (zero value + Xor): %x, ray walk %x", sq, occ, got, wr)
 			}
